@@ -513,13 +513,14 @@ META = {
     ],
     "bounds": {
         "quick": {"objects": "2 parents x 3 children (many-to-many 2 x 2), all new (transient)",
-                  "history": "2 steps over the full alphabet from 3-5 initial configurations; 3 steps over the core alphabet from the "
-                             "empty configuration",
+                  "history": "2 steps over the full alphabet from 3 initial configurations (many-to-many: from the empty one, and "
+                             "over the core alphabet from 4 others); 3 steps over the core alphabet from the empty configuration "
+                             "(one-to-one: over the full alphabet)",
                   "full alphabet": "append, remove, insert(0|1), [0|1] = c, [0:1] / [1:] = [...], extend, pop(), pop(0), clear, "
                                    "collection replacement, child.parent = p / None, del child.parent; sets: add, remove, discard, "
                                    "pop, clear, update, difference/intersection/symmetric_difference_update, replacement"},
-        "thorough": {"history": "3 steps over the full alphabet from the empty configuration, 2 steps from every initial configuration, "
-                                "4 steps over the core alphabet (one-to-one: 4 steps over the full alphabet)"},
+        "thorough": {"history": "2 steps over the full alphabet from every initial configuration; from the empty configuration 3 steps "
+                                "over the full alphabet (one-to-one: 4 steps; many-to-many: 2 steps, and 4 steps over the core alphabet)"},
     },
     "outside": [
         "'after flush and reload' (needs a database)",
@@ -552,7 +553,7 @@ def harnesses(tier: str) -> List[Harness]:
                 for i in range(1, ninit):
                     sl += _slices(kind, "core", i, 2)
             else:
-                for i in range(min(ninit, 4)):
+                for i in ((0, 2, 3) if kind != "o2o" else range(ninit)):
                     sl += _slices(kind, "full", i, 2)
             sl += _slices(kind, "core" if kind != "o2o" else "full", 0, 3)
         else:
